@@ -187,3 +187,17 @@ def field_chain(t):
 
 def epoch(t):
     return t[3] if _is(t, "call") and len(t) > 3 and isinstance(t[3], int) else 0
+
+
+def predicate_is(F, fn, method):
+    """the closure/function `fn` answers exactly `<its argument>.method()` on every path (not the negation, not a
+    conjunction with something else). None when `fn` has no recognisable return."""
+    from .mir import Sim
+    if fn is None or not fn.has_body():
+        return None
+    rets = [e[1] for q in Sim(fn, F).run() for e in q.events if e[0] == "return"]
+    if not rets:
+        return None
+    def ok(r):
+        return _is(r, "call") and call_matches(r[1], method) and r[2] and isinstance(r[2][0], tuple) and r[2][0][0] in ("param", "field", "vfield")
+    return all(ok(r) for r in rets)
